@@ -38,6 +38,18 @@ func checkC13(c *Ctx, r *Report) {
 	defer checkContainerFields(c, r, "C13.c")
 	defer checkProcessWideState(c, r, "C13.c")
 	defer checkMemoKeys(c, r, "C13.c")
+	// the routes file is rendered in the order of slices: no template iterates a Go map (raymond walks
+	// a map in reflect's unspecified key order)
+	defer func() {
+		for _, en := range c.T.Order {
+			eng := c.T.Engines[en]
+			viol := ""
+			if len(eng.EachOverMap) > 0 {
+				viol = eng.EachOverMap[0] + ": the rendered order of its entries differs between runs, so the routes file is not a function of project and configuration"
+			}
+			r.add("C13.a", "maporder", "tpl:"+en+":no-each-over-map", en+": no `{{#each}}` block iterates a Go map", []string{eng.Routes.File}, []string{eng.Routes.File + ":1"}, viol)
+		}
+	}()
 	w := c.W
 	// the spec is a function of sources and configuration minus the routing engine: the engine is
 	// consulted by the routes generator only (what the analysis, the reduction and the spec emitters
